@@ -1,6 +1,6 @@
 (* Model/Cli.v — the COMMAND layer of the kestrel CLI (src/cli/src/commands.rs, and main.rs::main for
    the exit code) as pure functions over an explicit world.  Definitions only; proofs are in
-   Proofs/CliFacts.v.
+   Proofs/CliFacts.v (commands) and Proofs/CliFs.v (the file system).
 
    Scope.  Argument parsing (the parse_ functions of main.rs) is not modelled: every command takes an already parsed
    option record.  Only ONE terminal configuration is modelled, the one a test harness can create:
@@ -11,21 +11,43 @@
      - the unlock loops of encrypt/decrypt never retry: a failed unlock is "Key unlock failed.";
      - open_input(None) = stdin,  open_output(None, _) = stdout (never "Please specify ...");
      - gen_key / change_pass print without the leading "\n".
+
+   The file system of the world is a TREE: a node is a regular file (bytes) or a directory, stored under its
+   canonical absolute path (the list of component names from the root; the root always exists and is a
+   directory); the world has a current directory.  A path STRING is resolved component by component the way
+   Linux does it without symbolic links (path_resolution(7)): the empty string does not resolve; a leading '/'
+   starts at the root, otherwise at the current directory (which must be a directory of the world); empty
+   components and "." stay, ".." goes to the parent (the root's parent is the root); every component but the
+   last must name an existing directory; a trailing '/' requires a directory.  [resolve] gives the canonical
+   path and the node there, or the canonical path of a name that is ABSENT in an existing directory (what
+   File::create can create), or nothing.
+     - File::create (OnDemandFile, at the FIRST write or flush call) succeeds iff the path resolves to a
+       regular file (truncated) or to an absent name in an existing directory (created).  Otherwise EVERY
+       write / flush call of the sink fails (missing parent directory, a directory at the path, a file used
+       as a directory, the empty string, a trailing slash) and nothing is created: the library run is made
+       on a sink whose first write call and first flush call fail (the library stops at the first failing
+       call: Proofs/CombineEncFault.v, CombineDecFault.v) and the file system stays as it was.
+     - Path::exists = the path resolves to a node.  File::open on a directory SUCCEEDS and every read
+       fails (EISDIR): the library run is made on a reader whose first read call fails.  What the command
+       has written by then (the header of the two encryptors: they write before they read) stays.
+     - the identity of a file is its CANONICAL path; the same-file test of commands.rs compares the two
+       argument STRINGS.  When the strings differ but input and output are one file, the output's
+       File::create truncates the input while it is being read: [alias_input] computes what the reader then
+       sees from the run's own trace (the bytes consumed before the first sink call, then whatever the sink
+       holds beyond that offset when the reader is next called), and the library is run on that.
    Out of scope (cannot be expressed in this world, or belongs to another configuration):
      - VarError::NotUnicode for KESTREL_PASSWORD / KESTREL_NEW_PASSWORD / KESTREL_KEYRING
        (environment values are byte strings / texts already known to be valid UTF-8);
-     - "Could not open input file", "Could not open output file", File::create / write / flush errors
-       of a real file system (permissions, directories, full disk): every path is a plain file,
-       an existing path can be opened, a missing path can be created, every read/write succeeds in full;
-     - path aliasing: a path is its string; `infile == outfile` is string equality in the Rust too, so
-       "f" and "./f" are different paths for the check AND different keys of the world;
+     - symbolic and hard links, devices, FIFOs, permissions ("Could not open input file"), a full disk, name and
+       path length limits (ENAMETOOLONG), a NUL inside a path, other processes changing the tree during the run;
      - cfg!(target_os = "windows"); the usage errors of main.rs (they come from the parser);
      - stderr (progress messages, prompts, the "Error: ..." line): only the exit code, the file
        system, stdout and a status naming the message are observable here.
 
-   Library calls run the functions of Model/Files.v on a SCRIPT-FREE io state [io0 input]
-   (= mk_io input [] [] []): every read and every write succeeds in full, which is how regular files
-   and pipes behave.  The output sink given with `-o F` is commands.rs::OnDemandFile: the file is
+   Library calls run the functions of Model/Files.v on the io state [job_io input dir bad]: script-free
+   (= mk_io input [] [] []: every read and every write succeeds in full, which is how regular files and pipes
+   behave) unless the input is a directory (the first read fails) or the sink cannot be created (the first
+   write and the first flush fail).  The output sink given with `-o F` is commands.rs::OnDemandFile: the file is
    created (File::create: truncated) by the FIRST `write` or `flush` CALL, whether or not that call
    carries bytes; so F is untouched iff the run's log holds no EvWrite / EvWriteErr / EvFlush event,
    and otherwise F's content becomes exactly [w_out] of the final state.  With stdout as the sink,
@@ -43,22 +65,114 @@ Inductive kerr :=
 | KPrivateKeyLength              (* "Invalid private key length." *)
 | KPrivateKeyFormat.             (* "Unsupported private key file format." *)
 
-(* ---------- the world ---------- *)
-(* path -> content; the FIRST pair with the path is the file *)
-Definition fsys := list (text * bytes).
+(* ---------- the world: a tree of files and directories ---------- *)
+Inductive node := NFile (c : bytes) | NDir.
 
-Fixpoint fs_get (l : fsys) (p : text) : option bytes :=
-  match l with
-  | [] => None
-  | (q, d) :: r => if text_eqb q p then Some d else fs_get r p
+(* canonical absolute path: the component names from the root; [] is "/" *)
+Definition cpath := list text.
+
+Fixpoint cpath_eqb (a b : cpath) : bool :=
+  match a, b with
+  | [], [] => true
+  | x :: a', y :: b' => text_eqb x y && cpath_eqb a' b'
+  | _, _ => false
   end.
 
-(* File::create + writes / OpenOptions::append + writes: the file at [p] gets content [c];
-   an existing file keeps its place in the list, a new one is added at the end *)
-Fixpoint fs_write (l : fsys) (p : text) (c : bytes) : fsys :=
+(* canonical path -> node; the FIRST pair with the path counts *)
+Definition ntab := list (cpath * node).
+
+Fixpoint nt_get (l : ntab) (p : cpath) : option node :=
   match l with
-  | [] => [(p, c)]
-  | (q, d) :: r => if text_eqb q p then (q, c) :: r else (q, d) :: fs_write r p c
+  | [] => None
+  | (q, n) :: r => if cpath_eqb q p then Some n else nt_get r p
+  end.
+
+(* an existing entry keeps its place in the list, a new one is added at the end *)
+Fixpoint nt_set (l : ntab) (p : cpath) (n : node) : ntab :=
+  match l with
+  | [] => [(p, n)]
+  | (q, m) :: r => if cpath_eqb q p then (q, n) :: r else (q, m) :: nt_set r p n
+  end.
+
+Record fsys := { nodes : ntab; cwd : cpath }.
+
+(* the node at a canonical path; the root is always there and is a directory *)
+Definition node_at (l : fsys) (p : cpath) : option node :=
+  match p with [] => Some NDir | _ :: _ => nt_get (nodes l) p end.
+
+(* the regular file at canonical path [p] gets content [c] (File::create + writes, OpenOptions::append + writes) *)
+Definition set_file (l : fsys) (p : cpath) (c : bytes) : fsys :=
+  {| nodes := nt_set (nodes l) p (NFile c); cwd := cwd l |}.
+
+(* ---- path strings ---- *)
+Definition c_slash : N := 47.
+Definition s_dot : text := [46].
+Definition s_dotdot : text := [46; 46].
+
+(* the pieces between the '/' characters, empty ones included: "a//b/" -> ["a"; ""; "b"; ""] *)
+Fixpoint split_slash (p : text) (cur : text) : list text :=
+  match p with
+  | [] => [rev cur]
+  | c :: r => if c =? c_slash then rev cur :: split_slash r [] else split_slash r (c :: cur)
+  end.
+Definition nonempty (t : text) : bool := match t with [] => false | _ :: _ => true end.
+Definition path_components (p : text) : list text := filter nonempty (split_slash p []).
+Definition path_absolute (p : text) : bool := match p with c :: _ => c =? c_slash | [] => false end.
+Definition path_trailing_slash (p : text) : bool := match rev p with c :: _ => c =? c_slash | [] => false end.
+
+Definition parent (d : cpath) : cpath := removelast d.
+
+(* walk the components [cs] from the node at canonical path [d].  Some (p, Some n): the path names the existing
+   node n at p; Some (p, None): the last component is a name that is absent in the existing directory
+   (parent p); None: the path does not resolve (ENOENT / ENOTDIR).  [must_dir]: the string ended in '/'. *)
+Fixpoint walk (l : fsys) (d : cpath) (cs : list text) (must_dir : bool) : option (cpath * option node) :=
+  match cs with
+  | [] => match node_at l d with Some NDir => Some (d, Some NDir) | _ => None end
+  | c :: rest =>
+      if text_eqb c s_dot then walk l d rest must_dir
+      else if text_eqb c s_dotdot then walk l (parent d) rest must_dir
+      else
+        let p := d ++ [c] in
+        match node_at l d with
+        | Some NDir =>
+            match rest with
+            | [] =>
+                match node_at l p with
+                | Some NDir => Some (p, Some NDir)
+                | Some (NFile x) => if must_dir then None else Some (p, Some (NFile x))
+                | None => if must_dir then None else Some (p, None)
+                end
+            | _ :: _ => match node_at l p with Some NDir => walk l p rest must_dir | _ => None end
+            end
+        | _ => None
+        end
+  end.
+
+Definition resolve (l : fsys) (p : text) : option (cpath * option node) :=
+  match p with
+  | [] => None
+  | _ :: _ =>
+      let start := if path_absolute p then [] else cwd l in
+      match node_at l start with
+      | Some NDir => walk l start (path_components p) (path_trailing_slash p)
+      | _ => None
+      end
+  end.
+
+(* the regular file seen through a path string (std::fs::read, File::open + reads) *)
+Definition fs_get (l : fsys) (p : text) : option bytes :=
+  match resolve l p with Some (_, Some (NFile c)) => Some c | _ => None end.
+(* Path::exists *)
+Definition fs_exists (l : fsys) (p : text) : bool :=
+  match resolve l p with Some (_, Some _) => true | _ => false end.
+(* the canonical path a string denotes: an existing node, or a name that can be created *)
+Definition fs_target (l : fsys) (p : text) : option cpath := option_map fst (resolve l p).
+(* where File::create(p) puts its file: an existing regular file (truncated) or a new name in an existing directory *)
+Definition fs_create_target (l : fsys) (p : text) : option cpath :=
+  match resolve l p with
+  | Some (cp, Some (NFile _)) => Some cp
+  | Some (cp, None) => Some cp
+  | _ => None
   end.
 
 Record world := {
@@ -97,6 +211,8 @@ Inductive cmd_status :=
 | SStdinNotUtf8           (* gen_key: stdin().read_line(..)? on a first line that is not UTF-8 *)
 | SNameInvalid            (* "Name must be between 1 and 128 characters." *)
 | SPrivateKeyStringBad    (* EncodedSk::try_from: "Invalid Private Key length" / "Could not decode private key" *)
+| SOutputOpenFailed       (* gen_key, -o names an existing directory: "Could not open output file: {}" *)
+| SOutputWriteFailed      (* gen_key, the file cannot be created: keyring.write_all(..)? : the bare io::Error text *)
 | SPanic (w : panic_tag)  (* a Rust panic: the process aborts with code 101 *)
 | SOutOfFuel              (* model artefact (an exhausted model loop); excluded by the library theorems *)
 | SOk                     (* Ok(()) *)
@@ -112,14 +228,15 @@ Definition code_of (st : cmd_status) : N :=
   if is_success st then 0
   else match st with SPanic _ => 101 | SOutOfFuel => 102 | _ => 1 end.
 
-(* the failures that happen before the library is called *)
+(* the failures that happen before the library is called (key generate: before or while the file is opened) *)
 Definition early_failure (st : cmd_status) : bool :=
   match st with
   | SInputOutputSame | SInputMissing
   | SKeyringUnspecified | SKeyringUnreadable | SKeyringNotUtf8 | SKeyringParse _
   | SRecipientNotFound | SSenderNotFound | SSenderNoPrivate | SKeyNotFound | SKeyNoPrivate
   | SPublicKeyBad _ | SEnvPassUnset | SEnvNewPassUnset | SNoTerminal | SUnlockFailed | SUnlockError _
-  | SDhError | SStdinNotUtf8 | SNameInvalid | SPrivateKeyStringBad => true
+  | SDhError | SStdinNotUtf8 | SNameInvalid | SPrivateKeyStringBad
+  | SOutputOpenFailed | SOutputWriteFailed => true
   | _ => false
   end.
 
@@ -161,19 +278,35 @@ Definition opt_or {A} (st : cmd_status) (o : option A) : pre A :=
 Definition check32 (b : bytes) : pre unit :=
   if Nat.eqb (length b) 32 then inr tt else inl (SPanic PUnwrap).
 
-(* ---------- the script-free io state and the OnDemandFile / stdout sink ---------- *)
+(* ---------- the io state of a library call, and the OnDemandFile / stdout sink ---------- *)
+(* the script-free state: a regular file or a pipe on both sides *)
 Definition io0 (input : bytes) : io := mk_io input [] [] [].
+
+(* [dir]: the input handle is a directory (every read fails with EISDIR: the first one ends the run);
+   [bad]: File::create fails (every write / flush call fails: the first one ends the run) *)
+Definition job_io (input : bytes) (dir bad : bool) : io :=
+  mk_io input (if dir then [RFail OtherErr] else [])
+        (if bad then [WFail OtherErr] else []) (if bad then [FFail OtherErr] else []).
 
 Definition sink_ev (e : event) : bool :=
   match e with EvWrite _ _ | EvWriteErr _ _ | EvFlush _ => true | _ => false end.
 (* some write or flush CALL was made on the sink during the run *)
 Definition sink_touched (s : io) : bool := existsb sink_ev (log s).
 
+(* where the output goes *)
+Inductive sink := SkStdout | SkFile (cp : cpath) | SkBad.
+Definition open_sink (l : fsys) (outfile : option text) : sink :=
+  match outfile with
+  | None => SkStdout
+  | Some p => match fs_create_target l p with Some cp => SkFile cp | None => SkBad end
+  end.
+Definition sink_bad (k : sink) : bool := match k with SkBad => true | _ => false end.
+
 (* deliver_output: what the run leaves in the file system and on stdout *)
 Definition out_fs (l : fsys) (outfile : option text) (s : io) : fsys :=
-  match outfile with
-  | Some p => if sink_touched s then fs_write l p (w_out (wtr s)) else l
-  | None => l
+  match open_sink l outfile with
+  | SkFile cp => if sink_touched s then set_file l cp (w_out (wtr s)) else l
+  | _ => l
   end.
 Definition out_stdout (outfile : option text) (s : io) : bytes :=
   match outfile with Some _ => [] | None => w_out (wtr s) end.
@@ -190,21 +323,78 @@ Definition stream_cmd {J E A} (w : world) (outfile : option text) (plan : pre J)
   | inr j => stream_result w outfile (run j) (fin j)
   end.
 
+(* ---------- input and output are ONE file (the strings differ, the canonical paths do not) ----------
+   Until the first sink call the reader sees the file's content.  That call truncates the file; from then on the
+   file holds what the sink has accepted, and the reader (whose offset is the number of bytes it has consumed)
+   sees what lies beyond its offset.  [tr] is the chronological trace of the run on the untouched content. *)
+Definition read_ev (e : event) : bool :=
+  match e with EvRead _ _ | EvReadErr _ _ => true | _ => false end.
+(* the bytes consumed before the first sink call, and the trace from that call on *)
+Fixpoint consumed_before_sink (tr : list event) (k : nat) : option (nat * list event) :=
+  match tr with
+  | [] => None
+  | e :: r =>
+      if sink_ev e then Some (k, tr)
+      else consumed_before_sink r (match e with EvRead _ got => k + length got | _ => k end)%nat
+  end.
+(* what the sink accepts before the reader is called again *)
+Fixpoint accepted_before_read (tr : list event) : bytes :=
+  match tr with
+  | [] => []
+  | e :: r =>
+      if read_ev e then []
+      else match e with
+           | EvWrite offered took => firstn took offered ++ accepted_before_read r
+           | _ => accepted_before_read r
+           end
+  end.
+Definition alias_input (tr : list event) (content : bytes) : bytes :=
+  match consumed_before_sink tr 0 with
+  | None => content                      (* no sink call: the file is never truncated *)
+  | Some (k, rest) => firstn k content ++ skipn k (accepted_before_read rest)
+  end.
+(* the bytes the library reads, and the run *)
+Definition alias_fed {R} (alias : bool) (input : bytes) (f : bytes -> R * io) : bytes :=
+  if alias then alias_input (trace (snd (f input))) input else input.
+Definition alias_run {R} (alias : bool) (input : bytes) (f : bytes -> R * io) : R * io :=
+  f (alias_fed alias input f).
+
 (* ---------- pieces shared by the commands ---------- *)
 (* if infile.is_some() && outfile.is_some() { if infile == outfile { Err } } *)
 Definition same_path (a b : option text) : bool :=
   match a, b with Some x, Some y => text_eqb x y | _, _ => false end.
 
-(* open_input *)
-Definition resolve_input (w : world) (infile : option text) : pre bytes :=
+(* open_input: `exists()`, then File::open — which also opens a directory.  (content, is a directory, canonical path) *)
+Definition open_input (w : world) (infile : option text) : pre (bytes * bool * option cpath) :=
   match infile with
-  | Some p => opt_or SInputMissing (fs_get (fs w) p)
-  | None => inr (stdin w)
+  | Some p =>
+      match resolve (fs w) p with
+      | Some (cp, Some (NFile c)) => inr (c, false, Some cp)
+      | Some (cp, Some NDir) => inr ([], true, Some cp)
+      | _ => inl SInputMissing
+      end
+  | None => inr (stdin w, false, None)
   end.
+(* the bytes of the input (none for a directory) *)
+Definition resolve_input (w : world) (infile : option text) : pre bytes :=
+  x <-- open_input w infile ;; inr (fst (fst x)).
 
-(* the same-path test followed by open_input (open_output cannot fail in this configuration) *)
-Definition open_io (w : world) (infile outfile : option text) : pre bytes :=
-  if same_path infile outfile then inl SInputOutputSame else resolve_input w infile.
+(* what a streaming command knows about its two ends when the library is called *)
+Record iojob := {
+  ij_input : bytes;     (* content of the input file / stdin *)
+  ij_dir : bool;        (* the input path is a directory *)
+  ij_bad : bool;        (* the file named by -o cannot be created *)
+  ij_alias : bool       (* input and output are the same regular file *)
+}.
+Definition same_file (a : option cpath) (k : sink) : bool :=
+  match a, k with Some x, SkFile y => cpath_eqb x y | _, _ => false end.
+
+(* the same-path test, open_input, open_output (which cannot fail in this configuration and touches nothing) *)
+Definition open_io (w : world) (infile outfile : option text) : pre iojob :=
+  if same_path infile outfile then inl SInputOutputSame else
+  x <-- open_input w infile ;;
+  let k := open_sink (fs w) outfile in
+  inr {| ij_input := fst (fst x); ij_dir := snd (fst x); ij_bad := sink_bad k; ij_alias := same_file (snd x) k |}.
 
 (* read_env_pass / read_env_new_pass *)
 Definition read_env_pass (w : world) : pre bytes := opt_or SEnvPassUnset (env_password w).
@@ -237,7 +427,8 @@ Variable utf8_encode : text -> bytes.                   (* str::as_bytes *)
 
 Definition parse_keyring : text -> outcome perr (list entry) := parse_config pk_ok sk_ok.
 
-(* open_keyring *)
+(* open_keyring: std::fs::read(path) — a directory, a missing file, a file used as a directory all give
+   "Could not open keyring: {}" *)
 Definition keyring_path (w : world) (k : option text) : pre text :=
   match k with
   | Some loc => inr loc
@@ -258,10 +449,11 @@ Definition to_public (sk : bytes) : pre bytes :=
   of_outcome (fun _ => SDhError) (x25519_derive_public P sk).
 
 (* ======================= encrypt ======================= *)
-Record enc_job := { ej_input : bytes; ej_s : bytes; ej_spk : bytes; ej_r : bytes }.
+Record enc_job := { ej_input : bytes; ej_s : bytes; ej_spk : bytes; ej_r : bytes;
+                    ej_dir : bool; ej_bad : bool; ej_alias : bool }.
 
 Definition encrypt_plan (w : world) (o : enc_opts) : pre enc_job :=
-  input <-- open_io w (eo_infile o) (eo_outfile o) ;;
+  io <-- open_io w (eo_infile o) (eo_outfile o) ;;
   keys <-- resolve_keyring w (eo_keyring o) ;;
   rk <-- opt_or SRecipientNotFound (get_key keys (eo_to o)) ;;
   rpub <-- of_outcome SPublicKeyBad (decode_pk (k_pub rk)) ;;
@@ -270,11 +462,16 @@ Definition encrypt_plan (w : world) (o : enc_opts) : pre enc_job :=
   locked <-- opt_or SSenderNoPrivate (k_priv sk) ;;
   pw <-- ask_pass w (eo_env_pass o) ;;
   spriv <-- unlock_key locked pw ;;
-  inr {| ej_input := input; ej_s := spriv; ej_spk := spub; ej_r := rpub |}.
+  inr {| ej_input := ij_input io; ej_s := spriv; ej_spk := spub; ej_r := rpub;
+         ej_dir := ij_dir io; ej_bad := ij_bad io; ej_alias := ij_alias io |}.
 
 (* fresh_pk, fresh_e: the two 32-byte blocks the library draws (payload key, then ephemeral key) *)
+Definition lib_enc (fresh_pk fresh_e : bytes) (j : enc_job) (input : bytes) : outcome eerr unit * io :=
+  key_encrypt P fresh_pk fresh_e (ej_s j) (ej_spk j) (ej_r j) None None None (job_io input (ej_dir j) (ej_bad j)).
+Definition enc_fed (fresh_pk fresh_e : bytes) (j : enc_job) : bytes :=
+  alias_fed (ej_alias j) (ej_input j) (lib_enc fresh_pk fresh_e j).
 Definition run_enc (fresh_pk fresh_e : bytes) (j : enc_job) : outcome eerr unit * io :=
-  key_encrypt P fresh_pk fresh_e (ej_s j) (ej_spk j) (ej_r j) None None None (io0 (ej_input j)).
+  alias_run (ej_alias j) (ej_input j) (lib_enc fresh_pk fresh_e j).
 
 Definition fin_enc (r : outcome eerr unit) : cmd_status :=
   match r with
@@ -288,20 +485,25 @@ Definition cmd_encrypt (w : world) (o : enc_opts) (fresh_pk fresh_e : bytes) : c
   stream_cmd w (eo_outfile o) (encrypt_plan w o) (run_enc fresh_pk fresh_e) (fun _ => fin_enc).
 
 (* ======================= decrypt ======================= *)
-Record dec_job := { dj_input : bytes; dj_r : bytes; dj_rpk : bytes; dj_keys : list entry }.
+Record dec_job := { dj_input : bytes; dj_r : bytes; dj_rpk : bytes; dj_keys : list entry;
+                    dj_dir : bool; dj_bad : bool; dj_alias : bool }.
 
 Definition decrypt_plan (w : world) (o : dec_opts) : pre dec_job :=
-  input <-- open_io w (do_infile o) (do_outfile o) ;;
+  io <-- open_io w (do_infile o) (do_outfile o) ;;
   keys <-- resolve_keyring w (do_keyring o) ;;
   rk <-- opt_or SKeyNotFound (get_key keys (do_to o)) ;;
   rpub <-- of_outcome SPublicKeyBad (decode_pk (k_pub rk)) ;;
   locked <-- opt_or SKeyNoPrivate (k_priv rk) ;;
   pw <-- ask_pass w (do_env_pass o) ;;
   rpriv <-- unlock_key locked pw ;;
-  inr {| dj_input := input; dj_r := rpriv; dj_rpk := rpub; dj_keys := keys |}.
+  inr {| dj_input := ij_input io; dj_r := rpriv; dj_rpk := rpub; dj_keys := keys;
+         dj_dir := ij_dir io; dj_bad := ij_bad io; dj_alias := ij_alias io |}.
 
+Definition lib_dec (j : dec_job) (input : bytes) : outcome derr bytes * io :=
+  key_decrypt P (dj_r j) (dj_rpk j) (job_io input (dj_dir j) (dj_bad j)).
+Definition dec_fed (j : dec_job) : bytes := alias_fed (dj_alias j) (dj_input j) (lib_dec j).
 Definition run_dec (j : dec_job) : outcome derr bytes * io :=
-  key_decrypt P (dj_r j) (dj_rpk j) (io0 (dj_input j)).
+  alias_run (dj_alias j) (dj_input j) (lib_dec j).
 
 (* the sender line printed after a successful decryption *)
 Definition sender_status (keys : list entry) (sender : bytes) : cmd_status :=
@@ -324,27 +526,33 @@ Definition cmd_decrypt (w : world) (o : dec_opts) : cmd_result :=
   stream_cmd w (do_outfile o) (decrypt_plan w o) run_dec (fun j => fin_dec (dj_keys j)).
 
 (* ======================= password encrypt / decrypt ======================= *)
-Record pw_job := { pj_input : bytes; pj_pw : bytes }.
+Record pw_job := { pj_input : bytes; pj_pw : bytes; pj_dir : bool; pj_bad : bool; pj_alias : bool }.
 
 Definition pass_encrypt_plan (w : world) (o : pw_opts) (salt : bytes) : pre pw_job :=
-  input <-- open_io w (po_infile o) (po_outfile o) ;;
+  io <-- open_io w (po_infile o) (po_outfile o) ;;
   pw <-- confirm_password w (po_env_pass o) ;;
   u <-- check32 salt ;;
-  inr {| pj_input := input; pj_pw := pw |}.
+  inr {| pj_input := ij_input io; pj_pw := pw; pj_dir := ij_dir io; pj_bad := ij_bad io; pj_alias := ij_alias io |}.
 
+Definition lib_penc (salt : bytes) (j : pw_job) (input : bytes) : outcome eerr unit * io :=
+  pass_encrypt P (pj_pw j) salt (job_io input (pj_dir j) (pj_bad j)).
+Definition penc_fed (salt : bytes) (j : pw_job) : bytes := alias_fed (pj_alias j) (pj_input j) (lib_penc salt j).
 Definition run_penc (salt : bytes) (j : pw_job) : outcome eerr unit * io :=
-  pass_encrypt P (pj_pw j) salt (io0 (pj_input j)).
+  alias_run (pj_alias j) (pj_input j) (lib_penc salt j).
 
 Definition cmd_pass_encrypt (w : world) (o : pw_opts) (salt : bytes) : cmd_result :=
   stream_cmd w (po_outfile o) (pass_encrypt_plan w o salt) (run_penc salt) (fun _ => fin_enc).
 
 Definition pass_decrypt_plan (w : world) (o : pw_opts) : pre pw_job :=
-  input <-- open_io w (po_infile o) (po_outfile o) ;;
+  io <-- open_io w (po_infile o) (po_outfile o) ;;
   pw <-- ask_pass w (po_env_pass o) ;;
-  inr {| pj_input := input; pj_pw := pw |}.
+  inr {| pj_input := ij_input io; pj_pw := pw; pj_dir := ij_dir io; pj_bad := ij_bad io; pj_alias := ij_alias io |}.
 
+Definition lib_pdec (j : pw_job) (input : bytes) : outcome derr unit * io :=
+  pass_decrypt P (pj_pw j) (job_io input (pj_dir j) (pj_bad j)).
+Definition pdec_fed (j : pw_job) : bytes := alias_fed (pj_alias j) (pj_input j) (lib_pdec j).
 Definition run_pdec (j : pw_job) : outcome derr unit * io :=
-  pass_decrypt P (pj_pw j) (io0 (pj_input j)).
+  alias_run (pj_alias j) (pj_input j) (lib_pdec j).
 
 Definition fin_pdec (r : outcome derr unit) : cmd_status :=
   match r with
@@ -377,16 +585,20 @@ Definition gen_plan (w : world) (o : gen_opts) (sk salt : bytes) : pre text :=
 Definition key_bytes (key_config : text) : bytes := utf8_encode key_config.
 Definition key_bytes_nl (key_config : text) : bytes := utf8_encode (c_nl :: key_config).
 
-(* REPAIRED code: an existing F is opened with OpenOptions::append (content kept, "\n" ++ key added at
-   the end); a missing F goes through OnDemandFile: write_all(key) then flush() create it with the key
-   text (the flush call creates it even if no write call was made); without -o the text goes to stdout
+(* REPAIRED code.  Path::new(F).exists(): an existing regular file is opened with OpenOptions::append (content
+   kept, "\n" ++ key added at the end); an existing DIRECTORY cannot be opened for appending ("Could not open
+   output file"); otherwise F goes through OnDemandFile: write_all(key) then flush() create it with the key text
+   (the flush call creates it even if no write call was made) — when it can be created (an absent name in an
+   existing directory), else write_all fails and nothing is created; without -o the text goes to stdout
    (not a terminal: no leading "\n") *)
 Definition gen_write (w : world) (outfile : option text) (key_config : text) : cmd_result :=
   match outfile with
   | Some f =>
-      match fs_get (fs w) f with
-      | Some c0 => mk_result (fs_write (fs w) f (c0 ++ key_bytes_nl key_config)) [] SOk
-      | None => mk_result (fs_write (fs w) f (key_bytes key_config)) [] SOk
+      match resolve (fs w) f with
+      | Some (cp, Some (NFile c0)) => mk_result (set_file (fs w) cp (c0 ++ key_bytes_nl key_config)) [] SOk
+      | Some (cp, Some NDir) => fail_result w SOutputOpenFailed
+      | Some (cp, None) => mk_result (set_file (fs w) cp (key_bytes key_config)) [] SOk
+      | None => fail_result w SOutputWriteFailed
       end
   | None => mk_result (fs w) (key_bytes key_config) SOk
   end.
@@ -402,9 +614,11 @@ Definition cmd_gen_key (w : world) (o : gen_opts) (sk salt : bytes) : cmd_result
 Definition gen_write_legacy (w : world) (outfile : option text) (key_config : text) : cmd_result :=
   match outfile with
   | Some f =>
-      match fs_get (fs w) f with
-      | Some _ => mk_result (fs_write (fs w) f (key_bytes_nl key_config)) [] SOk
-      | None => mk_result (fs_write (fs w) f (key_bytes key_config)) [] SOk
+      match resolve (fs w) f with
+      | Some (cp, Some (NFile _)) => mk_result (set_file (fs w) cp (key_bytes_nl key_config)) [] SOk
+      | Some (cp, Some NDir) => fail_result w SOutputWriteFailed
+      | Some (cp, None) => mk_result (set_file (fs w) cp (key_bytes key_config)) [] SOk
+      | None => fail_result w SOutputWriteFailed
       end
   | None => mk_result (fs w) (key_bytes key_config) SOk
   end.
